@@ -149,9 +149,10 @@ def judge_computed_arrays(expand):
     from pymoca.backends.casadi.generator import generate
     from pymoca.backends.casadi._options import _merge_default_options
     txt = ("model K Real z[2,2](min = cat(1, zeros(1,2), ones(1,2))); Real w[3,2](start = diagonal({1,2,3}) * ones(3,2)); "
-           "Integer k[2,3](max = diagonal({5,7}) * ones(2,3)); equation z = fill(1.0, 2, 2); w = fill(2.0, 3, 2); k = fill(1, 2, 3); end K;")
+           "Integer k[2,3](max = diagonal({5,7}) * ones(2,3)); Real lit[2,3](min = {{1,2,3},{4,5,6}}); "
+           "equation z = fill(1.0, 2, 2); w = fill(2.0, 3, 2); k = fill(1, 2, 3); lit = fill(9.0, 2, 3); end K;")
     want = {"z": ("min", np.array([[0.0, 0.0], [1.0, 1.0]])), "w": ("start", np.array([[1.0, 1.0], [2.0, 2.0], [3.0, 3.0]])),
-            "k": ("max", np.array([[5.0, 5.0, 5.0], [7.0, 7.0, 7.0]]))}
+            "k": ("max", np.array([[5.0, 5.0, 5.0], [7.0, 7.0, 7.0]])), "lit": ("min", np.array([[1.0, 2.0, 3.0], [4.0, 5.0, 6.0]]))}
     o = _merge_default_options({"expand_vectors": True} if expand else {})
     m = generate(pymoca.parser.parse(txt), "K", o)
     if expand:
@@ -231,7 +232,7 @@ def main():
                 break
     if payload.get("mode") == "bounded":
         print(json.dumps({"performed": True, "cases": n, "distinct_nontrivial": n, "failures": failures,
-                          "rule": "attributes of scalar / array / input variables set to literal, affine, bilinear (p1*p2), quadratic and non-polynomial expressions of three parameters, systematically and at random (seed %d); Variable attributes and variable_metadata_function are evaluated at 3 random parameter vectors and compared with the declared expressions; defaults and Python types checked; 2-D array attributes computed at generation time (cat/zeros/ones/diagonal products) compared element by element, with and without expand_vectors; plus histories read / simplify(options) / read, where the second read must agree with the simplified model's Variable objects" % seed,
+                          "rule": "attributes of scalar / array / input variables set to literal, affine, bilinear (p1*p2), quadratic and non-polynomial expressions of three parameters, systematically and at random (seed %d); Variable attributes and variable_metadata_function are evaluated at 3 random parameter vectors and compared with the declared expressions; defaults and Python types checked; 2-D array attributes computed at generation time (cat/zeros/ones/diagonal products) and a 2-D matrix literal compared element by element, with and without expand_vectors; plus histories read / simplify(options) / read, where the second read must agree with the simplified model's Variable objects" % seed,
                           "bound": "%d models x 3 parameter vectors" % n}))
     else:
         f = failures[0] if failures else None
